@@ -61,10 +61,15 @@ func (d *PathDecoder) linksInBody(body *hclsyntax.Body, bodySchema *schema.BodyS
 					})
 				}
 				for _, attrDep := range dk.Attributes {
+					attr, ok := block.Body.Attributes[attrDep.Name]
+					if !ok {
+						// the key comes from the attribute's default value
+						continue
+					}
 					links = append(links, lang.Link{
 						URI:     u.String(),
 						Tooltip: link.Tooltip,
-						Range:   block.Body.Attributes[attrDep.Name].Expr.Range(),
+						Range:   attr.Expr.Range(),
 					})
 				}
 			}
